@@ -149,6 +149,8 @@ def judge(case, rounds):
     for ri, rd in enumerate(rounds):
         if rd["stuck"]:
             return ("lock-up", "%d of %d concurrent requests never returned (family %s)" % (rd["stuck"], len(case["batch"]), fam))
+        if any(x >= 400 for x in (rd.get("setup") or [])):
+            continue            # the round's own set-up was refused (its listen port was taken by another process meanwhile): nothing to judge
         st = [r["status"] for r in rd["batch"]]
         final = A.canon_payload(rd["final"])
         plist = final[1] if final[0] == "proxies" else []
